@@ -40,7 +40,8 @@ var invalidDecl = map[string][]string{
 	"suffix":           {`suffix: "Q" "R"`, "suffix: 1"},
 	"range":            {"range: 5 1", "range: 1", "range: auto, 1 2", "range: 1.5 3", "range: 1 2 3"},
 	"pad":              {`pad: -1 "Q"`, "pad: 2", `pad: "Q"`, `pad: 1.5 "Q"`, `pad: 2 "Q" "R"`},
-	"fallback":         {"fallback: none", "fallback: a b", `fallback: "Q"`},
+	// F16: `fallback: "Q"` (a single non-identifier token) is not generated: it erases an earlier valid fallback
+	"fallback": {"fallback: none", "fallback: a b", "fallback: 1 2"},
 }
 
 // knownDefectNoise: noise constructs with a recorded finding (notes/C19.md), not generated.
